@@ -1769,7 +1769,16 @@ impl<'g, 'r> ProgGen<'g, 'r> {
         let k = self.g.below(3) as i32;
         let v = self.g.pick(&tg).clone();
         let w = tg.iter().find(|n| **n != v).cloned().unwrap();
-        match self.g.below(4) {
+        match self.g.below(6) {
+            // the result is stored and tested at once: the flags the callee returns with are those of its result
+            4 | 5 => {
+                let t = match self.g.below(3) {
+                    0 => Expr::var(&v),
+                    1 => Expr::Un(UnOp::LNot, Box::new(Expr::var(&v))),
+                    _ => Expr::bin(BinOp::Ne, Expr::var(&v), Expr::lit(0)),
+                };
+                vec![Stmt::Expr(Expr::assign(LValue::Var(v), call)), Stmt::If(t, Box::new(Stmt::Expr(Expr::IncDec(true, false, LValue::Var(w)))), None)]
+            }
             0 => vec![Stmt::Expr(Expr::assign(LValue::Var(v), call)), Stmt::Expr(Expr::assign(LValue::Var(w), Expr::lit(k)))],
             1 => vec![Stmt::If(call, Box::new(Stmt::Expr(Expr::assign(LValue::Var(w), Expr::lit(k)))), None)],
             2 => vec![Stmt::If(Expr::Un(UnOp::LNot, Box::new(call)), Box::new(Stmt::Expr(Expr::assign(LValue::Var(w), Expr::lit(k)))), None)],
@@ -2316,6 +2325,36 @@ impl<'g, 'r> ProgGen<'g, 'r> {
                 let pos = first_non_decl + self.g.below(body.len() - first_non_decl + 1);
                 body.insert(pos, Stmt::If(c, Box::new(Stmt::Return(Some(Expr::lit(k1)))), None));
                 body.push(Stmt::Return(Some(Expr::lit(k2))));
+            } else if is8(t) && self.g.chance(1, 4) {
+                // the value to return is already in the accumulator but the flags describe something else, or
+                // the return expression leaves something to settle (a post-increment, a borrowed index register)
+                self.label("return-with-foreign-flags");
+                let g8: Vec<String> = self.globals.iter().filter(|g| g.kind == VarKind::Scalar && is8(g.ty) && g.mem == MemQual::Default && !g.name.starts_with("hv")).map(|g| g.name.clone()).collect();
+                let arrs: Vec<(String, usize)> = self.globals.iter().filter_map(|g| match g.kind { VarKind::Array(n) if is8(g.ty) && g.mem == MemQual::Default => Some((g.name.clone(), n)), _ => None }).collect();
+                let style = self.g.below(3);
+                if style == 0 && g8.len() >= 2 {
+                    let k = self.g.below(3) as i32;
+                    let reg = if self.g.chance(1, 2) { "X" } else { "Y" };
+                    body.push(Stmt::Expr(Expr::assign(LValue::Var(g8[0].clone()), Expr::lit(k))));
+                    body.push(Stmt::Expr(Expr::assign(LValue::Var(reg.into()), Expr::var(&g8[1]))));
+                    body.push(Stmt::Return(Some(Expr::lit(k))));
+                } else if style == 1 && !g8.is_empty() {
+                    let v = self.g.pick(&g8).clone();
+                    body.push(Stmt::Return(Some(Expr::IncDec(self.g.chance(1, 2), false, LValue::Var(v)))));
+                } else if !arrs.is_empty() && !g8.is_empty() {
+                    let (ar, n) = self.g.pick(&arrs).clone();
+                    let v = self.g.pick(&g8).clone();
+                    // the index is reduced to the array size first
+                    if n.is_power_of_two() {
+                        body.push(Stmt::Expr(Expr::Assign(Some(BinOp::And), LValue::Var(v.clone()), Box::new(Expr::lit(n as i32 - 1)))));
+                    } else {
+                        body.push(Stmt::Expr(Expr::assign(LValue::Var(v.clone()), Expr::lit(0))));
+                    }
+                    body.push(Stmt::Return(Some(Expr::Lv(LValue::Index(ar, Box::new(Expr::var(&v)))))));
+                } else {
+                    let e = self.rvalue(&mut fc, t, 2);
+                    body.push(Stmt::Return(Some(e)));
+                }
             } else {
                 // locals declared at the top of the body are out of scope here by construction of
                 // stmt_list (it pops its scope), so the return expression uses params and globals
@@ -2397,6 +2436,23 @@ impl<'g, 'r> ProgGen<'g, 'r> {
                 self.label("prototype");
             }
             self.helpers.push(f);
+        }
+        // a call to a function that is only declared so far (prototype): the callee is defined after its
+        // caller. Only for checks that do not execute the program (mutual recursion may result)
+        if self.cfg.protos && self.cfg.self_calls && nh >= 2 && self.g.chance(1, 2) {
+            let j = 1 + self.g.below(nh - 1);
+            let i = self.g.below(j);
+            let ok = !self.helpers[j].inline && !self.helpers[j].interrupt && !self.helpers[i].inline && self.helpers[j].bank == 0 && self.helpers[i].bank == 0;
+            if ok {
+                self.helpers[j].proto = true;
+                let args: Vec<Expr> = self.helpers[j].params.iter().map(|(_, t)| if *t == Ty::Ptr { Expr::lit(0) } else { Expr::lit(1) }).collect();
+                let call = Stmt::Expr(Expr::Call(self.helpers[j].name.clone(), args));
+                // before a trailing return, if any
+                let body = &mut self.helpers[i].body;
+                let at = if matches!(body.last(), Some(Stmt::Return(_))) { body.len() - 1 } else { body.len() };
+                body.insert(at, call);
+                self.label("call-of-a-function-defined-later");
+            }
         }
         let main = self.gen_func(nh, true);
         let mut funcs = self.helpers.clone();
